@@ -64,7 +64,7 @@ type Pool struct {
 var pools = []Pool{
 	{Text: map[int]string{1: "Hello world", 2: "second text"}, Color: map[int]string{1: "#ff0000", 2: "blue"}},
 	{Text: map[int]string{1: "a & b &c; d", 2: "x < y <3 z"}, Color: map[int]string{1: "red", 2: "#00FF00"}},
-	{Text: map[int]string{1: "nb sp", 2: "12"}, Color: map[int]string{1: "#abcdef", 2: "#123456"}},
+	{Text: map[int]string{1: "nb\u00a0sp", 2: "12"}, Color: map[int]string{1: "#abcdef", 2: "#123456"}},
 	{Text: map[int]string{1: "\U0001F600 non-BMP \U00010348", 2: "ünï cödé → 日本語"}, Color: map[int]string{1: "yellow", 2: "#fff"}},
 	{Text: map[int]string{1: "quote \" and ' and > gt", 2: "{\\an8} brace"}, Color: map[int]string{1: "white", 2: "#0a0b0c"}},
 }
@@ -92,12 +92,12 @@ func (p Pool) colorOf(s string) int {
 func esc(s string) string {
 	s = strings.ReplaceAll(s, "&", "&amp;")
 	s = strings.ReplaceAll(s, "<", "&lt;")
-	s = strings.ReplaceAll(s, " ", "&nbsp;")
+	s = strings.ReplaceAll(s, "\u00a0", "&nbsp;")
 	return s
 }
 
 func unesc(s string) string {
-	s = strings.ReplaceAll(s, "&nbsp;", " ")
+	s = strings.ReplaceAll(s, "&nbsp;", "\u00a0")
 	s = strings.ReplaceAll(s, "&lt;", "<")
 	s = strings.ReplaceAll(s, "&gt;", ">")
 	s = strings.ReplaceAll(s, "&amp;", "&")
